@@ -134,6 +134,8 @@ Inductive diag :=
 | DRestAmbiguousBody       (* restclient/paramhandler.go setBodyParamName *)
 | DRestAmbiguousQuery      (* restclient/paramhandler.go handleMapType *)
 | DRestNeedsBody           (* restclient/cook.go: POST/PUT/PATCH without a struct parameter *)
+| DRestUnnamedParam        (* restclient/cook.go: an unnamed or blank parameter *)
+| DRestPtrPathParam        (* restclient/cook.go: a pointer parameter fills a path placeholder *)
 | DRestBadPath             (* restclient/cook.go:264 *)
 | DRestFewResults          (* restclient/cook.go:141 *)
 | DRestManyResults         (* restclient/cook.go:144 *)
@@ -826,7 +828,7 @@ Fixpoint enum_vspecs (tops : list tspec) (T : string) (typ : string) (l : list v
               end in
           match vs_type v with
           | Some (TId m) => step m
-          | Some _ => enum_vspecs tops T typ r n                 (* a non-identifier type: skip the spec *)
+          | Some _ => enum_vspecs tops T "" r n                  (* a non-identifier type (pkg.T): skip the spec, forget the carried type *)
           | None => step typ
           end
       end
@@ -923,6 +925,26 @@ Definition is_pkg_struct (name : string) (f : file) (fs : list file) : bool :=
   is_struct_type name f || existsb (is_struct_type name) fs.
 
 Definition is_query_verb (m : string) : bool := (m =? "GET") || (m =? "DELETE").
+
+(* go/types: the named type q.n has a basic underlying type (time.Duration) *)
+Definition sel_basic (q n : string) : bool := (q =? "time") && (n =? "Duration").
+
+(* the placeholders of a path: all non-overlapping matches of the regexp {(\w+)} *)
+Definition is_word (c : ascii) : bool := is_upper c || is_lower c || is_digit c || Ascii.eqb c "_"%char.
+Fixpoint placeholders_aux (s : string) (acc : option string) : list string :=
+  match s with
+  | EmptyString => []
+  | String c r =>
+      if Ascii.eqb c "{"%char then placeholders_aux r (Some EmptyString)
+      else match acc with
+           | None => placeholders_aux r None
+           | Some a =>
+               if is_word c then placeholders_aux r (Some (a ++ String c EmptyString))
+               else if Ascii.eqb c "}"%char && negb (a =? "") then a :: placeholders_aux r None
+               else placeholders_aux r None
+           end
+  end.
+Definition placeholders (path : string) : list string := placeholders_aux path None.
 Definition is_body_verb (m : string) : bool := mem m ["POST"; "PUT"; "PATCH"].
 
 (* handleExpr; the state is (a body parameter is bound, a query map is bound).  A struct
@@ -935,6 +957,7 @@ Fixpoint rest_param (baddir : bool) (fs : list file) (f : file) (m : string) (t 
   | TSel q n =>
       if negb (sel_named q n) then Ok st
       else if (q =? "context") && (n =? "Context") then Ok st
+      else if sel_basic q n && is_query_verb m then Ok st       (* a named scalar of another package: a query parameter *)
       else if body then fatal DRestAmbiguousBody else Ok (true, qmap)
   | TId n =>
       if is_pkg_struct n f fs then
@@ -951,15 +974,21 @@ Fixpoint rest_names (baddir : bool) (fs : list file) (f : file) (m : string) (t 
          (st : bool * bool) : res (bool * bool) :=
   match names with
   | [] => Ok st
-  | _ :: l => do b <- rest_param baddir fs f m t st; rest_names baddir fs f m t l b
+  | x :: l => do_ guard (negb (x =? "_")) DRestUnnamedParam;
+              do b <- rest_param baddir fs f m t st; rest_names baddir fs f m t l b
   end.
 
 Fixpoint rest_params (baddir : bool) (fs : list file) (f : file) (m : string) (ps : list param) (st : bool * bool)
   : res (bool * bool) :=
   match ps with
   | [] => Ok st
-  | p :: r => do b <- rest_names baddir fs f m (pa_type p) (pa_names p) st; rest_params baddir fs f m r b
+  | p :: r => do_ guard (match pa_names p with [] => false | _ => true end) DRestUnnamedParam;
+              do b <- rest_names baddir fs f m (pa_type p) (pa_names p) st; rest_params baddir fs f m r b
   end.
+
+(* IsParamPtrMap[method][name]: the parameter called name is written with a pointer type *)
+Definition ptr_param (ps : list param) (name : string) : bool :=
+  existsb (fun p => mem name (pa_names p) && match pa_type p with TStar _ => true | _ => false end) ps.
 
 (* exprToString(expr) == "*http.Response" / "error" *)
 Definition is_http_response (t : texpr) : bool :=
@@ -985,6 +1014,7 @@ Definition rest_method (baddir : bool) (fs : list file) (f : file) (doc : mdoc) 
       let m := upper verb in
       do_ guard (path_ok path) DRestBadPath;
       do st <- rest_params baddir fs f m params (false, false);
+      do_ guard (negb (existsb (ptr_param params) (placeholders path))) DRestPtrPathParam;
       do_ guard (negb (is_body_verb m) || fst st) DRestNeedsBody;
       (* resultValues: one entry per returned value; `a, b T` declares two *)
       let vals := flat_map (fun r => match pa_names r with
